@@ -261,3 +261,303 @@ Proof.
   split; [exact E|]. rewrite E. split; [apply numeric_toks_of; now apply to_str_toks_num|].
   split; [now apply only_sgr_toks_of|apply unformatted_toks_of].
 Qed.
+
+(* ====================================================================================== *)
+(* 2. Round trip: parse (render s)                                                          *)
+(* ====================================================================================== *)
+Definition style (s : astr) (i : nat) : tstate := style_of (map stxt (active_at (tbl s) i)).
+
+Lemma nth_error_map_snd {A B} (l : list (A * B)) i b :
+  nth_error (map snd l) i = Some b -> exists a, nth_error l i = Some (a, b).
+Proof.
+  revert i. induction l as [|[a0 b0] l IH]; intros [|i] H; try discriminate.
+  - cbn in H. inversion H; subst. now exists a0.
+  - apply (IH i H).
+Qed.
+
+(* what the terminal shows on w, read back through parse *)
+Lemma reparse_generic w s nid disp tfin (R : tstate -> tstate -> Prop) :
+  numeric_toks (tkz w) = true -> only_sgr (tkz w) = true ->
+  term_run tdefault w = (disp, tfin) -> map fst disp = base s ->
+  (forall i, i < length (base s) -> exists st, nth_error (map snd disp) i = Some st /\ R st (style s i)) ->
+  base (fst (parse w nid)) = base s
+  /\ forall i, i < length (base s) -> exists st, teq st (style (fst (parse w nid)) i) /\ R st (style s i).
+Proof.
+  intros Hnum Hsgr Hrun Htxt Hsty. destruct (parse_style w nid Hnum Hsgr) as [P1 P2].
+  rewrite Hrun in P1, P2. cbn [fst] in P1, P2. split; [congruence|].
+  intros i Hi. destruct (Hsty i Hi) as (st & Hn & HR). exists st. split; [|exact HR].
+  destruct (nth_error_map_snd _ _ _ Hn) as (c & Hc). exact (P2 i c st Hc).
+Qed.
+
+(* any flags, optimised renderer *)
+Theorem roundtrip_to_str_opt s rs re nid :
+  ssorted (tbl s) -> no_esc (base s) = true -> adds_wf (tbl s) ->
+  let s' := fst (parse (to_str s true rs re) nid) in
+  base s' = base s /\ forall i, i < length (base s) -> teq_disp (style s' i) (style s i).
+Proof.
+  intros Hs He Hwf s'.
+  destruct (tokenize_to_str s true rs re He Hwf) as (_ & Hnum & Hsgr & _).
+  destruct (render_opt_display_bytes s rs re tdefault Hs He Hwf (fun _ => eq_refl)) as (disp & tfin & H1 & H2 & H3 & _).
+  destruct (reparse_generic _ s nid disp tfin teq_disp Hnum Hsgr H1 H2 H3) as [B S]. split; [exact B|].
+  intros i Hi. destruct (S i Hi) as (st & Ha & Hb).
+  eapply teq_disp_trans; [apply teq_disp_sym, teq_teq_disp; exact Ha|exact Hb].
+Qed.
+
+(* any flags, unoptimised renderer: the style comes back exactly *)
+Theorem roundtrip_to_str_unopt s rs re nid :
+  ssorted (tbl s) -> no_esc (base s) = true -> adds_wf (tbl s) ->
+  let s' := fst (parse (to_str s false rs re) nid) in
+  base s' = base s /\ forall i, i < length (base s) -> teq (style s' i) (style s i).
+Proof.
+  intros Hs He Hwf s'.
+  destruct (tokenize_to_str s false rs re He Hwf) as (_ & Hnum & Hsgr & _).
+  destruct (render_unopt_display_bytes s rs re tdefault Hs He Hwf (fun _ => eq_refl)) as (disp & tfin & H1 & H2 & H3 & _).
+  destruct (reparse_generic _ s nid disp tfin teq Hnum Hsgr H1 H2 H3) as [B S]. split; [exact B|].
+  intros i Hi. destruct (S i Hi) as (st & Ha & Hb).
+  eapply teq_trans; [apply teq_sym; exact Ha|exact Hb].
+Qed.
+
+Theorem roundtrip_to_str s opt rs re nid :
+  ssorted (tbl s) -> no_esc (base s) = true -> adds_wf (tbl s) ->
+  let s' := fst (parse (to_str s opt rs re) nid) in
+  base s' = base s /\ forall i, i < length (base s) -> teq_disp (style s' i) (style s i).
+Proof.
+  intros Hs He Hwf. destruct opt; [now apply roundtrip_to_str_opt|].
+  destruct (roundtrip_to_str_unopt s rs re nid Hs He Hwf) as [B S]. split; [exact B|].
+  intros i Hi. apply teq_teq_disp. now apply S.
+Qed.
+
+Theorem roundtrip_text s nid : ssorted (tbl s) -> no_esc (base s) = true -> adds_wf (tbl s) ->
+  base (fst (parse (render s) nid)) = base s.
+Proof. intros Hs He Hwf. exact (proj1 (roundtrip_to_str s true false true nid Hs He Hwf)). Qed.
+
+Theorem roundtrip_style s nid : ssorted (tbl s) -> no_esc (base s) = true -> adds_wf (tbl s) ->
+  forall i, i < length (base s) ->
+  teq_disp (style_of (map stxt (active_at (tbl (fst (parse (render s) nid))) i)))
+           (style_of (map stxt (active_at (tbl s) i))).
+Proof. intros Hs He Hwf. exact (proj2 (roundtrip_to_str s true false true nid Hs He Hwf)). Qed.
+
+(* the result of the round trip is a well-formed value with parsable settings only: see section 3 *)
+
+(* non-vacuity: RenderProofs.ex_o ("ABC": bold from 0, italic added at 1, bold off at 2) and ex_f (font) *)
+Example roundtrip_ex :
+  ssorted (tbl ex_o) /\ no_esc (base ex_o) = true /\ adds_wf (tbl ex_o)
+  /\ base (fst (parse (render ex_o) 7)) = base ex_o
+  /\ map (fun i => tstate_obs (style (fst (parse (render ex_o) 7)) i)) [0; 1; 2]
+     = map (fun i => tstate_obs (style ex_o i)) [0; 1; 2].
+Proof.
+  destruct ex_o_hyps as (H1 & H2 & H3 & _). repeat split; auto; vm_compute; reflexivity.
+Qed.
+
+(* teq_disp cannot be strengthened to teq for the optimised renderer: clearing FONT_TYPE is rendered
+   as "10", which comes back as a setting "10" *)
+Example roundtrip_font_only_disp :
+  style (fst (parse (render ex_f) 7)) 1 FONT_TYPE = Some [10%N] /\ style ex_f 1 FONT_TYPE = None.
+Proof. split; vm_compute; reflexivity. Qed.
+
+(* ====================================================================================== *)
+(* 3. simplify                                                                               *)
+(* ====================================================================================== *)
+
+(* ---------- 3a. every value built by parse has parsable (hence valid) settings only ---------- *)
+Definition AP (t : fmts) : Prop := forall k x, In x (active_at t k) -> parsable (stxt x) = true.
+
+Lemma add_active_upto t : ssorted t -> forall k p x act, In (k, p) t -> In x (padd p) -> In x (active_upto t k act).
+Proof.
+  induction 1 as [|k' p' t Hk Hs IH]; intros k p x act Hin Hx; [destruct Hin|].
+  cbn [active_upto]. destruct Hin as [E|Hin].
+  - inversion E; subst k' p'. rewrite Nat.leb_refl. rewrite active_upto_all_gt by exact Hk.
+    unfold step. apply in_or_app. now right.
+  - pose proof (Hk _ Hin) as Hlt. cbn [fst] in Hlt.
+    replace (k' <=? k) with true by (symmetry; apply Nat.leb_le; lia). now apply IH with p.
+Qed.
+
+Lemma add_active t k p x : ssorted t -> In (k, p) t -> In x (padd p) -> In x (active_at t k).
+Proof. intros Hs Hin Hx. unfold active_at. now apply add_active_upto with p. Qed.
+
+Lemma in_all_adds x t : In x (all_adds t) <-> exists k p, In (k, p) t /\ In x (padd p).
+Proof.
+  unfold all_adds. rewrite in_flat_map. split.
+  - intros ([k p] & Hin & Hx). now exists k, p.
+  - intros (k & p & Hin & Hx). now exists (k, p).
+Qed.
+
+Lemma AP_adds t : ssorted t -> AP t -> adds_parsable t.
+Proof. intros Hs H x Hx. apply in_all_adds in Hx as (k & p & Hin & Hx). apply (H k). now apply add_active with p. Qed.
+
+Lemma adds_parsable_tbl t : adds_parsable t -> is_parsable_tbl t = true.
+Proof. intros H. unfold is_parsable_tbl. apply forallb_forall. exact H. Qed.
+
+Lemma parsable_valid t : parsable t = true -> valid t = true.
+Proof. unfold parsable. intros H. apply andb_true_iff in H as [H _]. now apply andb_true_iff in H as [H _]. Qed.
+
+Lemma adds_parsable_valid_tbl t : adds_parsable t -> is_valid_tbl t = true.
+Proof. intros H. unfold is_valid_tbl. apply forallb_forall. intros x Hx. now apply parsable_valid, H. Qed.
+
+Lemma PInv_AP_hi s cur key nid k x : PInv s cur key nid -> key <= k ->
+  In x (active_at (tbl s) k) -> parsable (stxt x) = true.
+Proof.
+  intros (Hwf & _ & (_ & Hok) & Hrep & _) Hk Hx.
+  destruct (lt_dec k (length (base s))) as [Hl|Hl].
+  - destruct (Hrep k (conj Hk Hl)) as [R1 _]. destruct (R1 x Hx) as (e & i & _ & Hg).
+    now destruct (Hok e i _ Hg).
+  - destruct Hwf as (Hs & _ & _ & Hkeys & Hfin). rewrite active_beyond in Hx; auto.
+    + rewrite Hfin in Hx. destruct Hx.
+    + intros kp Hin. specialize (Hkeys kp Hin). lia.
+Qed.
+
+Lemma parse_loop_AP text : forall l pos s cur nid,
+  PInv s cur pos nid -> base s = text -> AP (tbl s) ->
+  AP (tbl (fst (fst (parse_fold text (seqs_flat l pos) (s, cur, nid))))).
+Proof.
+  induction l as [|[c|q] l IH]; intros pos s cur nid Hinv Hb Hap.
+  - exact Hap.
+  - cbn [seqs_flat]. apply (IH (S pos) s cur nid); auto. eapply PInv_mono; eauto.
+  - cbn [seqs_flat]. rewrite parse_fold_cons. cbn [fst snd].
+    destruct (length text <=? pos) eqn:E; [now apply IH|]. apply Nat.leb_gt in E.
+    pose proof (parse_step_inv s cur pos (cs_body q) nid Hinv ltac:(now rewrite Hb)) as Hst. cbv zeta in Hst.
+    destruct (parse_step s cur pos (cs_body q) nid) as [[s1 cur1] nid1]. cbn [fst snd] in Hst.
+    destruct Hst as (Hinv1 & Hn1 & Hb1 & Hlo1).
+    apply (IH pos s1 cur1 nid1 Hinv1); [congruence|].
+    intros k x Hx. destruct (lt_dec k pos) as [Hl|Hl].
+    + rewrite Hlo1 in Hx by exact Hl. now apply (Hap k).
+    + apply (PInv_AP_hi s1 cur1 pos nid1 k x Hinv1); [lia|exact Hx].
+Qed.
+
+(* whatever the input *)
+Theorem parse_adds_parsable w nid : adds_parsable (tbl (fst (parse w nid))).
+Proof.
+  destruct (parse_wf w nid) as ((Hs & _) & _). apply AP_adds; [exact Hs|].
+  rewrite parse_eq. cbv zeta. cbn [fst].
+  apply (parse_loop_AP _ _ 0 _ [] nid (PInv_init _ _) eq_refl). intros k x [].
+Qed.
+
+Theorem parse_parsable w nid :
+  is_parsable_tbl (tbl (fst (parse w nid))) = true /\ is_valid_tbl (tbl (fst (parse w nid))) = true.
+Proof. split; [apply adds_parsable_tbl|apply adds_parsable_valid_tbl]; apply parse_adds_parsable. Qed.
+
+(* ---------- 3b. dropping the invalid settings ---------- *)
+Definition validS (x : setting) : bool := valid (stxt x).
+Definition drop_pt (p : point) : point := mkP (filter validS (padd p)) (filter validS (prem p)).
+
+Lemma drop_invalid_cons k p t : drop_invalid ((k, p) :: t) = (k, drop_pt p) :: drop_invalid t.
+Proof. reflexivity. Qed.
+
+Lemma drop_invalid_sorted t : ssorted t -> ssorted (drop_invalid t).
+Proof.
+  induction 1 as [|k p t Hk Hs IH]; [constructor|]. rewrite drop_invalid_cons. constructor; [|exact IH].
+  intros kp Hin. unfold drop_invalid in Hin. apply in_map_iff in Hin as (kp' & <- & Hin'). cbn [fst]. now apply Hk.
+Qed.
+
+Lemma drop_invalid_adds x t : In x (all_adds (drop_invalid t)) <-> In x (all_adds t) /\ valid (stxt x) = true.
+Proof.
+  induction t as [|[k p] t IH]; [cbn; tauto|]. rewrite drop_invalid_cons. unfold all_adds in *.
+  cbn [flat_map snd padd drop_pt]. rewrite !in_app_iff, IH, filter_In. unfold validS. tauto.
+Qed.
+
+(* identity determines text (true of Python objects: sid models `is`) *)
+Definition all_marks (t : fmts) : list setting := flat_map (fun kp => padd (snd kp) ++ prem (snd kp)) t.
+Definition cohL (L : list setting) : Prop := forall x y, In x L -> In y L -> sid x = sid y -> stxt x = stxt y.
+Definition coh_marks (t : fmts) : Prop := cohL (all_marks t).
+
+Lemma cohL_incl L L' : incl L' L -> cohL L -> cohL L'.
+Proof. intros Hi H x y Hx Hy. apply H; now apply Hi. Qed.
+
+Lemma filter_remove_ref r : forall act, (forall y, In y act -> sid r = sid y -> validS y = validS r) ->
+  filter validS (remove_ref r act) = if validS r then remove_ref r (filter validS act) else filter validS act.
+Proof.
+  induction act as [|y l IH]; intros Hc. { cbn. now destruct (validS r). }
+  assert (IH' := IH (fun z Hz => Hc z (or_intror Hz))). clear IH.
+  cbn [remove_ref]. unfold same_ref. destruct (Nat.eqb_spec (sid r) (sid y)) as [E|E].
+  - rewrite <- (Hc y (or_introl eq_refl) E). cbn [filter]. destruct (validS y) eqn:Ey; [|reflexivity].
+    cbn [remove_ref]. unfold same_ref. apply Nat.eqb_eq in E. now rewrite E.
+  - cbn [filter]. rewrite IH'. destruct (validS y) eqn:Ey; destruct (validS r) eqn:Er; try reflexivity.
+    cbn [remove_ref]. unfold same_ref. apply Nat.eqb_neq in E. now rewrite E.
+Qed.
+
+Lemma filter_rmall : forall rems act, cohL (act ++ rems) ->
+  filter validS (fold_left (fun a s => remove_ref s a) rems act)
+  = fold_left (fun a s => remove_ref s a) (filter validS rems) (filter validS act).
+Proof.
+  induction rems as [|r rems IH]; intros act Hc; [reflexivity|]. cbn [fold_left filter].
+  assert (Hr : filter validS (remove_ref r act)
+               = if validS r then remove_ref r (filter validS act) else filter validS act).
+  { apply filter_remove_ref. intros y Hy E. unfold validS. f_equal. symmetry. apply Hc; auto.
+    - apply in_or_app. right. now left.
+    - apply in_or_app. now left. }
+  rewrite IH.
+  - rewrite Hr. destruct (validS r); reflexivity.
+  - eapply cohL_incl; [|exact Hc]. intros z Hz. apply in_app_or in Hz as [Hz|Hz]; apply in_or_app.
+    + left. eapply in_remove_ref; eauto.
+    + right. now right.
+Qed.
+
+Lemma filter_step act p : cohL (act ++ prem p) -> filter validS (step act p) = step (filter validS act) (drop_pt p).
+Proof. intros Hc. unfold step. rewrite filter_app, filter_rmall by exact Hc. reflexivity. Qed.
+
+Lemma drop_invalid_upto i : forall t act, cohL (act ++ all_marks t) ->
+  active_upto (drop_invalid t) i (filter validS act) = filter validS (active_upto t i act).
+Proof.
+  induction t as [|[k p] t IH]; intros act Hc; [reflexivity|]. rewrite drop_invalid_cons. cbn [active_upto].
+  destruct (k <=? i); [|reflexivity]. unfold all_marks in Hc. cbn [flat_map snd] in Hc. fold (all_marks t) in Hc.
+  rewrite <- filter_step.
+  - apply IH. eapply cohL_incl; [|exact Hc]. intros z Hz. rewrite !in_app_iff in *.
+    destruct Hz as [Hz|Hz]; [|tauto]. apply in_step in Hz. tauto.
+  - eapply cohL_incl; [|exact Hc]. intros z Hz. rewrite !in_app_iff in *. tauto.
+Qed.
+
+Theorem drop_invalid_active t i : coh_marks t ->
+  active_at (drop_invalid t) i = filter validS (active_at t i).
+Proof. intros Hc. unfold active_at. now apply (drop_invalid_upto i t []). Qed.
+
+(* coherence is needed: a stop marker that shares the identity but not the (in)validity of the
+   setting it stops survives or vanishes independently of it *)
+Example drop_invalid_needs_coherence :
+  let t := [(0, mkP [mkS 1 [49]%N] []); (1, mkP [] [mkS 1 [65]%N])] in
+  strict_ok t = true /\ active_at (drop_invalid t) 1 = [mkS 1 [49]%N] /\ filter validS (active_at t 1) = [].
+Proof. repeat split. Qed.
+
+(* ---------- 3c. simplify ---------- *)
+Definition valid_adds_wf (t : fmts) : Prop :=
+  forall x, In x (all_adds t) -> valid (stxt x) = true -> wf_setting (stxt x) = true.
+(* the style of the valid settings alone *)
+Definition style_valid (s : astr) (i : nat) : tstate :=
+  style_of (map stxt (filter validS (active_at (tbl s) i))).
+
+Lemma drop_invalid_wf t : valid_adds_wf t -> adds_wf (drop_invalid t).
+Proof. intros H x Hx. apply drop_invalid_adds in Hx as [Hx Hv]. now apply H. Qed.
+
+Theorem simplify_spec s nid :
+  ssorted (tbl s) -> no_esc (base s) = true -> valid_adds_wf (tbl s) ->
+  let s' := fst (simplify s nid) in
+  base s' = base s
+  /\ (forall i, i < length (base s) ->
+        teq_disp (style s' i) (style_of (map stxt (active_at (drop_invalid (tbl s)) i))))
+  /\ (coh_marks (tbl s) -> forall i, i < length (base s) -> teq_disp (style s' i) (style_valid s i))
+  /\ is_parsable_tbl (tbl s') = true /\ is_valid_tbl (tbl s') = true
+  /\ rm_wf s' /\ nid <= snd (simplify s nid).
+Proof.
+  intros Hs He Hwf s'. unfold s'. rewrite simplify_def.
+  set (s0 := mkA (base s) (drop_invalid (tbl s))).
+  assert (H0 : ssorted (tbl s0)) by (apply drop_invalid_sorted; exact Hs).
+  assert (H1 : adds_wf (tbl s0)) by (apply drop_invalid_wf; exact Hwf).
+  destruct (roundtrip_to_str s0 true false true nid H0 He H1) as [B S]. fold (render s0) in B, S.
+  cbn [base] in B, S. split; [exact B|]. split; [exact S|]. split.
+  - intros Hc i Hi. unfold style_valid. rewrite <- drop_invalid_active by exact Hc. now apply S.
+  - destruct (parse_parsable (render s0) nid) as [P V]. destruct (parse_wf (render s0) nid) as (W & N & _). auto.
+Qed.
+
+(* a value with one valid and one invalid ("1A") setting; the stop markers share the identities *)
+Definition ex_inv : astr :=
+  mkA [65; 66; 67]%N
+      [(0, mkP [mkS 1 [49]%N; mkS 2 [49; 65]%N] []);
+       (1, mkP [mkS 3 [51; 56; 59; 53; 59; 49]%N] [mkS 2 [49; 65]%N]);
+       (2, mkP [] [mkS 1 [49]%N]);
+       (3, mkP [] [mkS 3 [51; 56; 59; 53; 59; 49]%N])].
+
+Lemma cohL_check L : forallb (fun x => forallb (fun y => negb (Nat.eqb (sid x) (sid y)) || str_eqb (stxt x) (stxt y)) L) L = true
+  -> cohL L.
+Proof.
+  intros H x y Hx Hy E. rewrite forallb_forall in H. specialize (H x Hx). rewrite forallb_forall in H.
+  specialize (H y Hy). apply Nat.eqb_eq in E. rewrite E in H. cbn [negb orb] in H. now apply str_eqb_eq.
+Qed.
